@@ -119,7 +119,8 @@ esl_ssi_Open(const char *filename, ESL_SSI **ret_ssi)
   /* (most) allocations done, now we read. */
   for (i = 0; i < ssi->nfiles; i++) 
     {
-      ESL_ALLOC(ssi->filename[i], sizeof(char)* ssi->flen);
+      ESL_ALLOC(ssi->filename[i], sizeof(char) * ((size_t) ssi->flen + 1));  /* +1: a damaged index may hold an unterminated name */
+      ssi->filename[i][ssi->flen] = '\0';
       /* We do have to explicitly position, because header and file 
        * records may expand in the future; frecsize and foffset 
        * give us forwards compatibility. 
@@ -195,7 +196,8 @@ esl_ssi_FindName(ESL_SSI *ssi, const char *key, uint16_t *ret_fh, off_t *ret_rof
 	if ((status = binary_search(ssi, key, ssi->slen, ssi->soffset, ssi->srecsize, ssi->nsecondary)) != eslOK) goto ERROR;
 
 	/* We have the secondary key; flip to its primary key, then look that up. */
-	ESL_ALLOC(pkey, sizeof(char) * ssi->plen);
+	ESL_ALLOC(pkey, sizeof(char) * ((size_t) ssi->plen + 1));
+	pkey[ssi->plen] = '\0';
 	status = eslEFORMAT;
 	if (fread(pkey, sizeof(char), ssi->plen, ssi->fp) != ssi->plen) goto ERROR;
 	if ((status = esl_ssi_FindName(ssi, pkey, ret_fh, ret_roff, &doff, &L)) != eslOK) goto ERROR;
@@ -259,7 +261,8 @@ esl_ssi_FindNumber(ESL_SSI *ssi, int64_t nkey, uint16_t *opt_fh, off_t *opt_roff
   char    *pkey = NULL;
 
   if (nkey >= ssi->nprimary) { status = eslENOTFOUND; goto ERROR; }
-  ESL_ALLOC(pkey, sizeof(char) * ssi->plen);
+  ESL_ALLOC(pkey, sizeof(char) * ((size_t) ssi->plen + 1));
+  pkey[ssi->plen] = '\0';
 
   status = eslEFORMAT;
   if (fseeko(ssi->fp, ssi->poffset+ssi->precsize*nkey, SEEK_SET)!= 0) goto ERROR;
@@ -414,6 +417,7 @@ esl_ssi_FindSubseq(ESL_SSI *ssi, const char *key, int64_t requested_start,
    */
   if ((status = esl_ssi_FindName(ssi, key, ret_fh, ret_roff, ret_doff, ret_L)) != eslOK) goto ERROR;
   if (requested_start < 1 || requested_start > *ret_L) { status = eslERANGE; goto ERROR; }
+  if (*ret_fh >= ssi->nfiles)                            { status = eslEFORMAT; goto ERROR; } /* damaged index: no such file */
 
   /* Do we have a data offset for this key? If not, we're case 4.    */
   /* Can we do fast subseq lookup on this file? If no, we're case 3. */
@@ -429,8 +433,8 @@ esl_ssi_FindSubseq(ESL_SSI *ssi, const char *key, int64_t requested_start,
   r = ssi->rpl[*ret_fh];         /* residues per line */
   b = ssi->bpl[*ret_fh];         /* bytes per line    */
   i = requested_start;	         /* start position 1..L */
-  l = (i-1)/r;		         /* data line # (0..) that the residue is on */
   if (r == 0 || b == 0) { status = eslEINVAL; goto ERROR; }
+  l = (i-1)/r;		         /* data line # (0..) that the residue is on */
   
   /* When b = r+1, there's nothing but sequence on each data line (and the \0).
    * In this case, we know we can find each residue precisely: outcome #1.
@@ -565,7 +569,8 @@ binary_search(ESL_SSI *ssi, const char *key, uint32_t klen, off_t base,
   
   if (maxidx == 0) return eslENOTFOUND; /* special case: empty index */
 
-  ESL_ALLOC(name, (sizeof(char)*klen));
+  ESL_ALLOC(name, sizeof(char) * ((size_t) klen + 1));
+  name[klen] = '\0';               /* keys are stored with their terminator; a damaged index might not have one */
 
   left  = 0;
   right = maxidx-1;
